@@ -98,6 +98,7 @@ class Ctx:
         self.replay_req = replay_req        # {"query":..., "values":...} when replaying
         self.known = [k for k in load_known()["findings"] if k["property"] == prop]
         self.timeout_ms = int(os.environ.get("VERIF_QUERY_TIMEOUT_MS", 120000 if tier == "quick" else 900000))
+        self._t_start = time.time()
         self.solver_s = 0.0
         self.validated = 0
 
